@@ -944,6 +944,24 @@ class Engine:
                 return self._opt_fork(st, v, lambda s: some(('pin', ('ref', loc + (('dc', 'Some'), '0')))))
             return None
 
+        # ---- Into / From that only wraps: T -> Option<T> is Some(x), T -> T is x
+        if name in ('into', 'from') and len(args) == 1 and ('convert::Into' in (ci.get('trait') or '') + path
+                                                               or 'convert::From' in (ci.get('trait') or '') + path):
+            dty = t.get('dest_ty') or ''
+            aty = (t.get('argtys') or [''])[0]
+            if dty == aty:
+                return [(st, args[0])]
+            if dty.startswith('std::option::Option<') and dty == 'std::option::Option<%s>' % aty:
+                return [(st, some(args[0]))]
+        # ---- calling a closure / fn item that was passed around as a value: <F as Fn*>::call*(f, (args..))
+        if name in ('call', 'call_mut', 'call_once') and len(args) == 2 and 'ops::Fn' in (ci.get('trait') or '') + path:
+            f = args[0]
+            for _ in range(3):
+                if f[0] == 'ref':
+                    f = self.read(st, f[1])
+            if f[0] in ('closure', 'fn'):
+                params = [x for x in args[1][1]] if args[1][0] == 'tuple' else [args[1]]
+                return [(st2, rv) for st2, rv in self.call_closure(st, f, params)]
         # ---- bool::then / then_some
         if name in ('then', 'then_some') and len(args) == 2 and ('bool' in path or path.startswith('std::bool')):
             outs = []
